@@ -22,7 +22,7 @@ MANIFEST = {
     },
 }
 PROPS = {"C13": ["Nstd.Server.PropsC13", "Nstd.Server.PropsC13Batch", "Nstd.Server.PropsTr", "Nstd.Server.PropsTr13"],
-         "C14": ["Nstd.Server.PropsC14", "Nstd.Server.PropsTr"]}
+         "C14": ["Nstd.Server.PropsC14", "Nstd.Server.PropsC14R", "Nstd.Server.PropsTr"]}
 LEAN_TARGETS = ["Nstd.Server.Props", "drv_server"]
 DRIVER = "drv_server"
 GEN_TR = C.LEAN / "Nstd" / "Generated" / "ServerTr.lean"
@@ -1034,7 +1034,7 @@ C14_BRANCHES = [
 ]
 # branches of the model that no history can reach (kept in the model because the C++ has them)
 C14_UNREACHABLE = {
-    "c.delete": "Server.cpp 277: a client without callback / with _removed is deleted by the hand-over code before the closing loop sees it (repaired code)",
+    "c.delete": "Server.cpp 277: PROVED DEAD (closing_loop_never_deletes, no_client_is_removed_between_steps): a client without callback / with _removed is deleted by the hand-over code before the closing loop sees it (repaired code)",
     "d.write.empty.onWrite": "Server.cpp 387-392 entered with an empty send buffer: excluded by theorem onWrite_needs_backlog / client_interest (write interest iff backlog)",
     "t.fault": "", "c.fault": "", "d.write.fault": "", "d.accept.fault": "", "d.connect.fault": "",
 }
